@@ -15,6 +15,7 @@
  R5 aggregation  : aggregated requests: ids joined by ' | ', bandwidth summed, N and M concatenated, the absorbed
                    request removed; aggregation requires equal endpoints, transponder, mode and constraints.
  Rm memo          : every memoisation construct in the functions behind this property is keyed by everything it reads.
+ Rp presence      : optional numeric fields are tested with `is None` / membership, never by truthiness (0 is a value).
 """
 import ast
 
@@ -370,5 +371,10 @@ from ..memo import rule_for as _memo_rule
 
 RULES_MEMO = ('Rm.memo', _memo_rule('C19', 'a result would report figures of another request'))
 
+
+from ..presence import rule_for as _presence_rule
+
+RULES_PRESENCE = ('Rp.presence', _presence_rule('C19', 'a legal zero would be reported as missing'))
+
 RULES = [('R6.own-objects', r6_own_objects), ('R1.metrics', r1_metrics), ('R2.directions', r2_directions), ('R3.dispatch', r3_dispatch), ('R4.csv', r4_csv),
-         ('R5.aggregation', r5_aggregation), RULES_MEMO]
+         ('R5.aggregation', r5_aggregation), RULES_MEMO, RULES_PRESENCE]
